@@ -189,10 +189,15 @@ class Engine(ExprMixin, CallMixin, StmtMixin):
                     res = coerce(res, T.parse_type(c.returns)) if c.returns not in ("none", "None") else res
                 except Unsupported as e:
                     raise Unsupported("return value of type %s does not fit declared %s" % (res.ty, c.returns))
+            # in ensures, parameters of immutable type denote their entry values (as in the native reading, where the
+            # caller's ints/tuples cannot be changed by the callee); mutable ones denote the object's final state
+            post_env = {p: v for p, v in entry.vars.items()
+                        if not isinstance(v, (VList, VDict, VSet, VRec)) and p not in c.ghost}
+            post_env["result"] = res
             for h in c.hints.get("exit", []):
-                self.assume_hint(s2, h, {"result": res})
+                self.assume_hint(s2, h, post_env)
             for j, e in enumerate(ensures):
-                g = self.spec_bool(e, s2, {"result": res})
+                g = self.spec_bool(e, s2, post_env)
                 self.obligations.append(Obligation(self.cur_name, "post", "E%d" % j, s2.conds(), g, "ensures: " + e,
                                                    npaths, inputs, getattr(fdef, "lineno", 0)))
             self.frame_obligations(c, s2, entry, npaths, fdef)
@@ -285,6 +290,9 @@ def solve(ob, timeout_ms):
     s.set("timeout", max(1000, timeout_ms // 3))
     s.set("auto_config", False)
     s.set("smt.mbqi", False)
+    from .calls import SPEC_AXIOMS
+    axioms = list(SPEC_AXIOMS.values())
+    s.add(*axioms)
     s.add(*ob.assumptions)
     s.add(z3.Not(ob.goal))
     r = s.check()
@@ -293,6 +301,7 @@ def solve(ob, timeout_ms):
     # strategy 2: default configuration (MBQI on): can also produce models
     s = z3.Solver()
     s.set("timeout", timeout_ms)
+    s.add(*axioms)
     s.add(*ob.assumptions)
     s.add(z3.Not(ob.goal))
     r = s.check()
@@ -309,7 +318,9 @@ def solve(ob, timeout_ms):
 
 
 def smt2_of(ob):
+    from .calls import SPEC_AXIOMS
     s = z3.Solver()
+    s.add(*SPEC_AXIOMS.values())
     s.add(*ob.assumptions)
     s.add(z3.Not(ob.goal))
     return s.to_smt2()
